@@ -331,6 +331,7 @@ func init() {
 			{Name: "CIGAR-SPLIT", What: "sam.ParseCigar, splitting a length above 2^28−1: what is left after a piece was taken off is shown positive before an operation is made from it – no zero-length operation for an exact multiple, which would fail IsValid for a valid CIGAR (shared with C06; added after seventh-round seeds C16-h, C06-h)", Floor: 2, Run: ruleCigarSplit},
 			{Name: "LAST-BASE", What: "the index Add methods validate End()-1, the last base, not the exclusive End(): positions up to 2^29-2 are indexable, so an alignment may end at 2^29-1 (shared with C04)", Floor: 2, Run: ruleLastBase},
 			{Name: "BIN-ARG-END", What: "csi.Add computes the bin from [Start(), End()): reg2bin takes an exclusive end, and the last base in its place files a record that ends on the first base of a smallest-level bin one bin too low (added after ninth-round seed C16-i)", Floor: 2, Run: ruleBinArgEnd},
+			{Name: "SHARED-STATE", What: "the bin functions keep no package-level state that a call writes: a bin list is the caller's own (added after fifteenth-round seed C16-q: OverlappingBinsFor filling one shared buffer, so that two lists alive at once are one)", Floor: 1, Run: ruleSharedState([]string{"internal", "csi"})},
 			{Name: "DEPTH-GUARD", What: "\"every CSI (minShift, depth) scheme\": csi.(*Index).Add assigns bins only for a depth whose numbering fits 32 bits; a deeper scheme is refused instead of being numbered wrongly (shared with C04)", Floor: 1, Run: ruleDepthGuard},
 			{Name: "LEN-SPAN", What: "Record.Len is End() − Start() – the span on the reference, B extension included – not a sum of operation lengths (added after ninth-round seed C16-j)", Floor: 1, Run: ruleLenSpan},
 		},
@@ -349,6 +350,7 @@ func init() {
 			{Name: "BIN-ARG-END", What: "csi.Add hands reg2bin the record's exclusive End(), not its last base (shared with C16)", Floor: 2, Run: ruleBinArgEnd},
 			{Name: "STRATEGY-BIND", What: "index.Adjacent – what every Chunks answer goes through – is the function adjacent that MERGE-STEP examines (shared with C17)", Floor: 3, Run: ruleStrategyBind},
 			{Name: "LAST-BASE", What: "internal.(*Index).Add and csi.(*Index).Add validate the record's last base, End()-1, with the predicate on 0-based positions, not the exclusive End(): a record on the last base the index can hold is accepted (shared with C16; added for a defect of the unchanged tree)", Floor: 2, Run: ruleLastBase},
+			{Name: "SHARED-STATE", What: "internal and csi keep no package-level state that a call writes: what Chunks enumerates and returns is the caller's own (shared with C16)", Floor: 1, Run: ruleSharedState([]string{"internal", "csi"})},
 			{Name: "DEPTH-GUARD", What: "csi.(*Index).Add computes a record's bin only for an index whose depth was found at most 9: deeper schemes do not fit the 32-bit bin arithmetic and lose records silently (added for a defect of the unchanged tree, fourth hunt)", Floor: 1, Run: ruleDepthGuard},
 			{Name: "LINEAR-KEEP", What: "internal.(*Index).Add only extends the linear index: the list is never cut back or assigned in place, a longer list is built over a copy of the old one and filled from max(first tile, old length) on – a tile keeps the offset of the first record that reached it (added after eleventh-round seed C04-k)", Floor: 2, Run: ruleLinearKeep},
 			{Name: "STATS-BLIND", What: "no Chunks method (bam, internal, csi, tabix; through their callees) reads the reference statistics: a query is answered from bins and intervals alone (added after seventh-round seed C04-h: an early-out on Stats.Mapped == 0 loses references that hold only placed unmapped reads)", Floor: 4, Run: ruleStatsBlind},
